@@ -234,7 +234,7 @@ def seq_oracle(ctx, cases, outs):
 
 # ------------------------------------------------------------------ the Coq model on the same cases
 def coq_term_to_py(txt):
-    t = txt.replace(";", ",")
+    t = txt.replace(";", ",").replace("%N", "")
     t = re.sub(r"Some (\d+)", r"\1", t)
     t = t.replace("None", "-1")
     return ast.literal_eval(t)
@@ -263,11 +263,20 @@ def model_conformance(ctx, cases, outs):
         defs.append("Definition ops%d := [%s]." % (i, "; ".join(coq_op(o) for o in c["ops"])))
     runs = "; ".join("(q_run_digest %d (new_rq %d %d %d) ops%d, obs (q_final %d (new_rq %d %d %d) ops%d))" %
                      (GCAP, c["workers"], K, GCAP, i, GCAP, c["workers"], K, GCAP, i) for i, c in enumerate(cases))
-    body = """From Coq Require Import List Arith Bool. Import ListNotations.
+    body = """From Coq Require Import List Arith Bool NArith. Import ListNotations.
 From GV Require Import C05.Model.
+(* results are converted to binary numbers before they are read back and printed *)
+Definition cN := N.of_nat.
+Definition cO (o : option tok) := option_map cN o.
+Definition cD (d : option tok * (list (nat * nat) * (nat * nat * nat))) :=
+  match d with (o, (l, (a, b, c))) => (cO o, (map (fun p => (cN (fst p), cN (snd p))) l, (cN a, cN b, cN c))) end.
+Definition cR (r : nat * nat * nat * nat * list (option tok)) :=
+  match r with (a, b, c, d, l) => (cN a, cN b, cN c, cN d, map cO l) end.
+Definition cF (f : list (nat * nat * nat * nat * list (option tok)) * (nat * nat * nat * nat * list (option tok))) :=
+  (map cR (fst f), cR (snd f)).
 %s
 Definition allruns := [%s].
-Eval vm_compute in allruns.
+Eval vm_compute in (map (fun x => (map cD (fst x), cF (snd x))) allruns).
 """ % ("\n".join(defs), runs)
     rc, out = ctx.coq_eval("cases_C05", body, timeout=900)
     flat = " ".join(out.split())
@@ -490,7 +499,7 @@ def run(ctx):
 
 
 META = {
-    "ready": False,
+    "ready": True,
     "category": "proof",
     "technique": "Rocq refinement proof (rings -> FIFO lists, all capacities) + inductive invariants over a concurrent transition system + step-by-step conformance of the real rings + stress and scripted park/close witnesses",
     "text": "The ring buffers of ready_queue.go (local ring, global ring with doubling, stealHalf) are proved to refine FIFO lists for every capacity including wrap-around and growth; over the concurrent model (any number of producers, n workers, any interleaving, spurious wake-ups, re-pushes with spill) ticket conservation (every pushed ticket taken at most once, never lost), no lost wake-up for the global ring (waiters > 0 implies signalled workers >= queued global items), emptiness of a parked worker's local ring, and exit of every worker after close are proved as inductive invariants. The real rings are compared step by step with the model on op sequences that reach overflow at 256 and growth to 128/256 with a non-zero head.",
